@@ -344,6 +344,8 @@ theorem plan_headObject (b k : Bytes) : ∀ t ∈ (plan e enc (.headObject b k))
   simp only [plan]
   refine forall_withPath forall_nil fun p hp => ?_
   have h1 : P e enc (.headObject b k) ⟨.read, .path p⟩ := L_obj hr (brd (by simp [readBuckets])) hp
+  refine forall_withPath (by touch_list <;> solve_by_elim) fun bp hbp => ?_
+  have h0 : P e enc (.headObject b k) ⟨.read, .path bp⟩ := L_bucket hr (brd (by simp [readBuckets])) hbp
   refine forall_withPath (by touch_list <;> solve_by_elim) fun m hm => ?_
   have h2 : P e enc (.headObject b k) ⟨.read, .path m⟩ :=
     L_name hr (good_metadataName he b k (by simp)) ⟨rfl, rfl⟩ hm
